@@ -341,3 +341,7 @@ M("c04.bom-not-skipped", "C04", "behave/parser.py", 'data = f.read().decode("utf
 M("c20.bare-color-last-argument", "C20", "behave/configuration.py",
   "            if has_next_arg and os.path.exists(command_args[color_arg_pos + 1]):",
   "            if os.path.exists(command_args[color_arg_pos + 1]):")
+M("c15.pretty-prefix-not-counted", "C15", "behave/formatter/pretty.py",
+  "        line_length = len(prefix) + len(step.keyword) + 1\n", "        line_length = 5 + len(step.keyword)\n")
+M("c15.pretty-step-lines-off-by-one", "C15", "behave/formatter/pretty.py",
+  "self.step_lines = int((line_length - 1) / self.display_width)", "self.step_lines = int(line_length / self.display_width)")
